@@ -50,6 +50,9 @@ FUNCTIONS = [
     ('filter_process', 'dataflows.processors.filter_rows', ['process_resource']),
     ('deduper', 'dataflows.processors.deduplicate', ['deduper']),
     ('unpivot_rows', 'dataflows.processors.unpivot', ['unpivot_rows']),
+    # duplicate: where the copy's descriptor goes
+    ('duplicate_traverse', 'dataflows.processors.duplicate', ['duplicate', 'func', 'traverse_resources'],
+     ['source_', 'target_name_', 'target_path_', 'duplicate_to_end']),
     # add_computed_field: the declared type of a computed field
     ('computed_get_type', 'dataflows.processors.add_computed_field', ['get_type']),
     # select_fields: which schema fields are selected, in which order (the loops over the patterns and the remaining names)
